@@ -259,6 +259,10 @@ def r_global_use(ctx):
     ctx.ok("R-GLOBAL-USE", f"{len(readers)} reads of the global problem scanned")
 
 
+IMMUTABLE_FACTORIES = ("tuple", "frozenset", "str", "int", "float", "bool", "bytes", "compile", "namedtuple", "TypeVar", "NewType",
+                       "getLogger", "Path", "Field", "Literal", "Union", "Optional", "frozendict", "MappingProxyType")
+
+
 def r_no_module_state(ctx):
     proj = ctx.project
     n = 0
@@ -291,6 +295,67 @@ def r_no_module_state(ctx):
             if isinstance(st, ast.If):
                 continue
             ctx.note(f"R-NO-MODULE-STATE: {m.short}: module-level {type(st).__name__} at line {st.lineno} not classified")
+        # module-level objects built by a call (counters, iterators, generators, registries, caches): any use of them from
+        # inside a function is process-wide state shared by all problems
+        for st in m.tree.body:
+            if not isinstance(st, (ast.Assign, ast.AnnAssign)) or st.value is None:
+                continue
+            v = st.value
+            targets = st.targets if isinstance(st, ast.Assign) else [st.target]
+            names = [t.id for t in targets if isinstance(t, ast.Name)]
+            stateful = isinstance(v, ast.GeneratorExp) or (isinstance(v, ast.Call) and ast.unparse(v.func).split(".")[-1] not in IMMUTABLE_FACTORIES
+                                                             and ast.unparse(v.func) not in ("dict", "list", "set", "defaultdict"))
+            if not stateful:
+                continue
+            for nm in names:
+                uses = []
+                for mm in proj.modules.values():
+                    for fn_ in ast.walk(mm.tree):
+                        if isinstance(fn_, (ast.FunctionDef, ast.Lambda)):
+                            for x in ast.walk(fn_):
+                                if (isinstance(x, ast.Name) and x.id == nm and mm is m) or \
+                                        (isinstance(x, ast.Attribute) and x.attr == nm and ast.unparse(x.value).endswith(m.short)):
+                                    uses.append((mm, x))
+                n += 1
+                if uses:
+                    ctx.violation("R-NO-MODULE-STATE", f"{m.short}.{nm}", "module-level object used at run time",
+                                  f"`{nm} = {ast.unparse(v)[:60]}` lives for the whole process and is used inside functions "
+                                  f"({sorted({f'{u[0].short}:{u[1].lineno}' for u in uses})[:4]}): what it returns depends on the problems built "
+                                  f"earlier in the same process", f"{proj.relpath(m.path)}:{st.lineno}")
+                else:
+                    ctx.ok("R-NO-MODULE-STATE", f"{m.short}.{nm}: module-level object never used inside a function", nontrivial=True)
+    # class attributes written at run time (Task.counter += 1, cls.registry[...] = ..., type(self).n = ...): shared by all
+    # instances of all problems
+    class_names = set(proj.classes)
+    for m in proj.modules.values():
+        for fn_ in ast.walk(m.tree):
+            if not isinstance(fn_, ast.FunctionDef):
+                continue
+            for x in ast.walk(fn_):
+                tgt = None
+                if isinstance(x, ast.Attribute) and isinstance(x.ctx, ast.Store):
+                    tgt = x
+                elif isinstance(x, ast.Subscript) and isinstance(x.ctx, ast.Store) and isinstance(x.value, ast.Attribute):
+                    tgt = x.value
+                elif isinstance(x, ast.Call) and isinstance(x.func, ast.Attribute) and isinstance(x.func.value, ast.Attribute) \
+                        and x.func.attr in ("append", "update", "add", "extend", "pop", "clear", "setdefault", "insert", "remove"):
+                    tgt = x.func.value
+                if tgt is None:
+                    continue
+                base = ast.unparse(tgt.value)
+                if base in class_names or base in ("cls", "type(self)", "self.__class__"):
+                    ctx.violation("R-NO-MODULE-STATE", f"{m.short}.{fn_.name}", f"class attribute {base}.{tgt.attr} written at run time",
+                                  f"`{ast.unparse(x)[:80]}` modifies an attribute of the class itself: the value is shared by every "
+                                  f"instance of every problem built in the process", f"{proj.relpath(m.path)}:{x.lineno}")
+    # `global` statements: the only module variable the package rebinds at run time is the active problem
+    for m in proj.modules.values():
+        for x in ast.walk(m.tree):
+            if isinstance(x, (ast.Global, ast.Nonlocal)) and isinstance(x, ast.Global):
+                extra = [g for g in x.names if g != "active_problem"]
+                if extra:
+                    ctx.violation("R-NO-MODULE-STATE", f"{m.short}", f"global statement on {extra}",
+                                  f"`global {', '.join(extra)}`: a module variable rebound at run time is state that survives from one "
+                                  f"problem to the next", f"{proj.relpath(m.path)}:{x.lineno}")
     ctx.floor("R-NO-MODULE-STATE", "module-level statements", n, 100)
 
 
